@@ -20,6 +20,8 @@ theorem verdict : (classify Generated.factsC07).Sound (Holds (cfgOf Generated.fa
 #print axioms refutes_of_witness
 #print axioms refutes_current
 #print axioms findings_current
+#print axioms findings_beforeFix
+#print axioms holds_current_nonvalue
 #print axioms witness_updated_stale
 #print axioms witness_created_stale
 #print axioms witness_value_update_stale
